@@ -91,6 +91,20 @@ def gen_cases(tier, seed):
             for rev in (0, 1):
                 cases.append({"k": "datepair", "j": j, "n": nn, "a": a.isoformat(), "b": b.isoformat(), "rev": rev,
                               "ts": C.iso(refs[i % len(refs)])})
+    # both ends with their own date AND clock time ('5.5.2020 11:30 - 5.5.2020 13:45'): ordered pairs give [A .. B], reversed
+    # pairs must not come back as an inverted interval (same day and different days, all minute combinations)
+    for i in range(1500 if tier == "thorough" else 300):
+        a = d0 + timedelta(days=r.randrange(14000))
+        same_day = i % 2 == 0
+        b = a if same_day else a + timedelta(days=r.choice([1, 2, 30, 365]))
+        if b.year > 2029:
+            continue
+        ha, hb = r.randrange(24), r.randrange(24)
+        ma, mb = r.choice([0, 15, 30, 45]), r.choice([0, 15, 30, 45])
+        if same_day and (ha, ma) == (hb, mb):
+            continue
+        cases.append({"k": "dtpair", "j": r.choice(["-", "to", "bis", "until"]), "a": a.isoformat(), "b": b.isoformat(), "ha": ha, "ma": ma, "hb": hb, "mb": mb,
+                      "ts": C.iso(refs[i % len(refs)])})
     # half-open
     xs = []
     for i in range(60 if tier == "thorough" else 12):
@@ -122,6 +136,8 @@ def run_case(case, ctx):
         return _clock(case, ctx, ts)
     if k == "datepair":
         return _datepair(case, ctx, ts)
+    if k == "dtpair":
+        return _dtpair(case, ctx, ts)
     return _halfopen(case, ctx, ts)
 
 
@@ -185,6 +201,29 @@ def _datepair(case, ctx, ts):
     if got == exp:
         return C.ok(key, cls, nt=bool(ctx["mon"].case_rules), obs_={"text": text, "got": V.show(got)})
     return _fail(ctx, text, ts, lambda v: v == exp, "datepair/%s" % case["n"], "%r: expected %s, got %s via %s" % (text, V.show(exp), V.show(got), C.obs(r)), key, cls)
+
+
+def _dtpair(case, ctx, ts):
+    a, b = date.fromisoformat(case["a"]), date.fromisoformat(case["b"])
+    A = datetime(a.year, a.month, a.day, case["ha"], case["ma"])
+    B = datetime(b.year, b.month, b.day, case["hb"], case["mb"])
+    fmt = lambda x: "%02d.%02d.%04d %d:%02d" % (x.day, x.month, x.year, x.hour, x.minute)
+    text = G.RANGE_JOIN[case["j"]].format(a=fmt(A), b=fmt(B))
+    key = "dtpair|" + text
+    ordered = A < B
+    cls = "dtpair/%s/%s/%s" % (case["j"], "same-day" if a == b else "other-day", "ordered" if ordered else "reversed")
+    r = C.api(ctx, text, ts)
+    got = C.resv(r)
+    inverted = bool(got and got[0] == "I" and got[1] and got[2] and V.dated(got[1]) and V.dated(got[2]) and _dt(got[1]) >= _dt(got[2]))
+    if inverted:
+        return C.viol("dtpair/inverted-interval", "%r: start not before end: %s via %s" % (text, V.show(got), C.obs(r)), key, cls)
+    if not ordered:
+        return C.ok(key, cls, nt=bool(ctx["mon"].case_rules), obs_={"text": text, "got": V.show(got)})
+    exp = ("I", V.T(A.year, A.month, A.day, A.hour, A.minute), V.T(B.year, B.month, B.day, B.hour, B.minute))
+    if got == exp:
+        return C.ok(key, cls, nt=True, obs_={"text": text, "got": V.show(got)})
+    return _fail(ctx, text, ts, lambda v: v == exp, "dtpair/%s" % ("same-day" if a == b else "other-day"),
+                 "%r: expected %s, got %s via %s" % (text, V.show(exp), V.show(got), C.obs(r)), key, cls)
 
 
 def _halfopen(case, ctx, ts):
